@@ -515,6 +515,15 @@ func main() {
 			})
 			return strings.Join(out, " ; ")
 		}
+		// the replica's side of an addition and of a promotion (C09, whole-volume model): the controller
+		// attaches the replica (CreateReplica) before the replica marks itself as rebuilding, and makes it
+		// RW (VerifyRebuildReplica) before the replica clears the mark
+		addStr("syncAddOrder", calls(syncf.fn("Task", "AddReplica"), map[string]bool{
+			"t.checkAndResetFailedRebuild": true, "t.client.CreateReplica": true, "toClient.SetRebuilding": true,
+			"t.client.PrepareRebuild": true, "t.syncFiles": true, "t.reloadAndVerify": true}))
+		addStr("syncVerifyOrder", calls(syncf.fn("Task", "reloadAndVerify"), map[string]bool{
+			"repClient.ReloadReplica": true, "s.UpdateLUNMap": true, "t.client.VerifyRebuildReplica": true,
+			"repClient.SetRebuilding": true}))
 		addStr("cloneReplicaOrder", calls(syncf.fn("Task", "CloneReplica"), map[string]bool{
 			"toClient.SetRebuilding": true, "t.syncFiles": true, "toClient.UpdateCloneInfo": true,
 			"toClient.ReloadReplica": true, "s.UpdateLUNMap": true}))
